@@ -24,7 +24,8 @@ def extra_builds(tier):
 
 
 def bounds(tier):
-    return {"single_bit_scalars": 256, "two_adjacent_bit_and_single_zero_bit_scalars": 511 if tier == "thorough" else 0, "u_values": len(us(tier))}
+    return {"single_bit_scalars": 256, "two_adjacent_bit_and_single_zero_bit_scalars": 511 if tier == "thorough" else 0, "u_values": len(us(tier)),
+            "components": "C15 limb-field / result-steering field programs incl. mul_small (hook)"}
 
 
 def validate_models(tier):
